@@ -60,10 +60,13 @@ def deferred (o : Opts V) (f : PField V) : Option V :=
   if o.noDefault || !(f.deferDefault || o.deferDefault) then none
   else match o.forceDefault with | some d => some d | none => f.default
 
+/-- an accepted key of the field is in the input -/
+def given (W : World V) (f : PField V) (data : List (Key × V)) : Bool := !(candidates W f data).isEmpty
+
 structure FieldOut (V : Type) where
   value : Option V            -- what the instance holds for the field
   errs : List Err
-  provided : Bool             -- an accepted key was in the input
+  provided : Bool             -- an accepted key was in the input and its value was not dropped by 'exclude'
   active : Bool               -- its dependencies must be present
   deriving Repr
 
@@ -82,8 +85,11 @@ def fieldContract [DecidableEq V] (W : World V) (o : Opts V) (f : PField V) (dat
       match f.onError.getD o.invalidValues with
       | .throw => ⟨none, conflict ++ [.parse f.name], true, false⟩
       | .preserve => ⟨some c, conflict, true, true⟩
-      | .exclude => ⟨filled o f, conflict ++ (if required o f then [.parse f.name] else []), true,
-                     (filled o f).isSome⟩
+      | .exclude =>
+        -- a required field cannot be excluded; otherwise the dropped value leaves the field as one that was
+        -- not given: its default applies, it satisfies nobody's dependency and demands none
+        if required o f then ⟨filled o f, conflict ++ [.parse f.name], true, (filled o f).isSome⟩
+        else ⟨filled o f, conflict, false, false⟩
 
 /-- Unknown keys: dropped (None), kept (True), converted (type), rejected (False). -/
 def additionContract (W : World V) (typed : Bool) (o : Opts V) (kv : Key × V) : Option V × List Err :=
@@ -111,6 +117,7 @@ structure Contract (V : Type) where
 def contract [DecidableEq V] (W : World V) (P : Parser V) (o : Opts V) (data : List (Key × V)) : Contract V :=
   let fs := P.fields.map (·.2)
   let outs := fs.map fun f => (f, fieldContract W o f data)
+  -- present: given, accepted (not excluded), and holding a value
   let present (n : Key) : Bool := outs.any fun fo => fo.1.name = n && fo.2.provided && fo.2.value.isSome
   let wanted := (outs.filter (·.2.active)).flatMap (·.1.deps)
   let lack := (fs.map (·.name)).filter fun n => wanted.contains n && !present n
